@@ -64,7 +64,7 @@ class C19(P.Property):
     assumptions = ["crash model is a clean close/reopen: the property names no other fault for the array",
                    "exception type is prescribed only for out-of-range reads (IndexError) and closed-array use (ValueError); "
                    "a refused write may raise any exception"]
-    probe_names = ["slice_one_shot_values", "neg_read_after_reopen", "neg_read_last_chunk_unopened", "slice_fail_pos_ge1", "neg_step_slice_fail",
+    probe_names = ["membership_probe_of_other_length", "slice_one_shot_values", "neg_read_after_reopen", "neg_read_last_chunk_unopened", "slice_fail_pos_ge1", "neg_step_slice_fail",
                    "len_not_multiple_of_chunk", "chunk_gt_len", "op_while_closed", "reopen", "step0_slice", "from_list", "bystander_array", "interleaved_iteration", "write_during_iteration"]
 
     def setup(self):
@@ -157,6 +157,8 @@ class C19(P.Property):
                 steps.append({"op": "dslice", "s": rs()})
             elif op == "contains":
                 steps.append({"op": "contains", "pick": rng.randrange(n + 1), "v": hx(rng.randbytes(isz))})
+                if rng.random() < 0.3:
+                    steps[-1]["probe"] = rng.choice(["stripped", "empty", "longer"])  # a probe that is not item_size bytes long equals no item of a list
             elif op == "count":
                 steps.append({"op": "count", "pick": rng.randrange(n)})
             elif op == "close":
@@ -511,6 +513,10 @@ class C19(P.Property):
                         break
                 elif op == "contains":
                     v = model[st["pick"]] if st["pick"] < n else pad(unhx(st["v"]), isz)
+                    pk = st.get("probe")
+                    if pk:
+                        probe("membership_probe_of_other_length")
+                        v = v.lstrip(b"\x00") if pk == "stripped" else b"" if pk == "empty" else b"\x00" + v
                     got = outcome(lambda: v in a)
                     obs.append((op, got[0]))
                     if got != ("ok", v in model):
